@@ -14,7 +14,8 @@ EXPLANATION = (
     "variant_end / variant_span are provided trait methods, overrides are enumerated, and indexer and query filter of a format "
     "reach the same function; (R4) Indexer::add_record rejects unsorted input with an error exit; (R5) the CSI binned "
     "index's min_offset is a minimum over several bins (ancestor bins hold long records that start earlier in the file) — "
-    "the necessary condition whose absence was the genuine defect F3, repaired in /repo.")
+    "the necessary condition whose absence was the genuine defect F3, repaired in /repo."
+    " (R6) sibling agreement of the binning functions: every value that reg2bin (indexer side) and reg2bins (query side) shift right and that derives from `start` / `end` has passed through exactly one `- 1`, i.e. both use the same 0-based closed interval.")
 ASSUMPTIONS = ["Interval::intersects and Position arithmetic in noodles-core are correct (unit-tested, value-level)"]
 NOT_DECIDED = ["completeness/soundness of reg2bin/reg2bins, chunk merging and min_offset pruning for every layout x region (the core of C04)",
                "that the chunks produced by the indexers are the true file ranges of the records",
